@@ -66,6 +66,9 @@ def run(ctx):
                    "str_equal_ragged", "str_equal_str", "as_string_array", "view_copy_assign", "view_copy_assign", "concat_assign", "eq_ragged_other_enc", "rows_to_array_assign", "string_array_eq_list", "from_encoded_array"]
             if n:
                 ops += ["row_int", "row_int", "elem", "row_int_col_slice"]
+            if n == 1:
+                # bnp.ragged_slice is judged where its two readings (offsets into the row / into the flattened characters) are the same thing: one row, one slice
+                ops += ["ragged_slice", "ragged_slice"]
             if n and min(lens) > 0:
                 ops += ["col_int", "assign_col", "col_fancy"]
             op = r.choice(ops)
@@ -155,7 +158,7 @@ def run(ctx):
                 if not n:
                     raise Skip()
                 st = [r.randint(0, l) for l in lens]
-                en = [r.randint(s, l) for s, l in zip(st, lens)]
+                en = [r.randint(s, l) for s, l in zip(st, lens)] if r.random() < 0.6 else None       # ends left out: to the end
                 return op, {"starts": st, "ends": en}
             return op, {}
         if kind == "flat":
@@ -280,7 +283,7 @@ def run(ctx):
             if op == "assign_col":
                 return "ragged", [s[:p["j"]] + U(p["c"]) + s[p["j"] + 1:] for s in model]
             if op == "ragged_slice":
-                return "ragged", [s[a:b] for s, a, b in zip(model, p["starts"], p["ends"])]
+                return "ragged", [s[a:b] for s, a, b in zip(model, p["starts"], p["ends"] if p["ends"] is not None else [None] * len(model))]
             if op == "view_copy_assign":
                 sel = p["sel"]
                 view = model[::-1] if sel[0] == "rev" else ([model[i] for i in sel[1]] if sel[0] == "fancy" else model[sel[1]:])
@@ -447,6 +450,8 @@ def run(ctx):
                 c[:, p["j"]] = p["c"]
                 return c
             if op == "ragged_slice":
+                if p["ends"] is None:
+                    return bnp.ragged_slice(obj, np.array(p["starts"], dtype=int))
                 return bnp.ragged_slice(obj, np.array(p["starts"], dtype=int), np.array(p["ends"], dtype=int))
             if op == "view_copy_assign":
                 # a selection (view), copied at once (nothing decodes or flattens the view in between), then the copy is overwritten
